@@ -1,0 +1,9 @@
+//! Verification hooks (cfg `rten_verif`). Each submodule re-exposes crate-private
+//! machinery to the correspondence harnesses under /verif; nothing here is compiled
+//! into ordinary builds.
+pub mod exec;
+pub mod ops;
+pub mod opt;
+pub mod planner;
+pub mod pool;
+pub mod shapeinfer;
